@@ -68,6 +68,12 @@ def exec_call(spec):
             if spec.get("as_sid"):
                 s = Sid(s)
             return canon(unfold_search(s, *spec.get("args", []), **spec.get("kw", {})))
+        if f == "expand":
+            from spil.sid.core.utils import expand
+            return canon(expand(spec["search"], *spec.get("args", [])))
+        if f == "simple_typing":
+            from spil.sid.core.utils import simple_typing
+            return canon(simple_typing(spec["search"]))
         if f == "match":
             return canon(Sid(spec["sid"]).match(spec["search"]))
         if f == "find":
